@@ -42,6 +42,11 @@ T = {
          "Every configuration is parsed by the real HTMLParser; documentEncoding must equal the documented precedence (BOM > override > transport > prescan meta > parent unless UTF-16 > likely > default > windows-1252; UTF-16 in meta means UTF-8; late meta while tentative restarts) and the tree must equal html5lib's parse of the bytes decoded by Python's codec for the reported encoding. The prescan is driven at its narrowest seam (detectEncodingMeta) on every short byte word.",
          "webencodings' label table and Python's codecs are trusted; six modelled prescan deviations and the dropped truncated final byte sequence are listed known findings; chardet is absent",
          "6/C06"),
+ "C07": ("exploration",
+         "bounded exhaustive enumeration of conforming document trees from a content-model grammar (every forest within a node budget, five shape themes) x 6 shape-relevant option sets x both walkers, plus character documents under the full cross product of 2592 serializer option combinations; oracle: canonical(parse(render(walk(parse(markup))))) == canonical(parse(markup)), with a generator self-check (intended tree == parsed tree)",
+         "Every generated document is written fully tagged by an independent writer, parsed by html5lib, required to equal the intended tree, then serialized by the real serializer under each option set with each walker and parsed again; the two canonical trees (direct traversal) must be equal. Exhaustive within the stated node budgets, which include every optional-tag situation of lists, tables, select, ruby, head/body starts, pre/textarea.",
+         "the grammar is deliberately conservative (only productions I am sure are conforming); attribute order is not compared; the boolean-minimisation value change is a listed known finding",
+         "6/C07"),
  "C08": ("model_checking",
          "explicit-state BFS over markup/attribute/text themes (key = parser state + complete final tree); every distinct tree is walked by both walkers and serialized with 8 option sets; plus flat exhaustive enumeration of hand-built streams (all attribute values and texts <=2-3 over 12-13 letter alphabets in 11 element contexts) under the FULL cross product of 1296 serializer option combinations; oracle = ref/retokenize.py (reference tokenizer + content-model switches from the known namespaces) reading the output in place, or a reported serialization error",
          "Each output is re-read lexically by an independent tokenizer written from the standard and must yield exactly the tags, attribute (qualified name, value) sets, text, comments and doctype of the stream it came from; otherwise serializer.errors must be non-empty and strict mode must raise.",
